@@ -1,6 +1,7 @@
 import PoxModel.Proofs.Layout
 import PoxModel.Model.CodecNXM
 /-! TLV framing of NXM entries: header ‖ value ‖ mask decodes back, for every type/length/value/mask. Core only. -/
+set_option linter.unusedSimpArgs false
 namespace Pox.CodecNXM
 open Pox Pox.Layout
 
